@@ -467,6 +467,7 @@ class Einsum(Rule):
     """Two operands, one summed axis shared by both, (e.g. 'ij,j->i'); lengths symbolic."""
     cls = 'Einsum'
     label = '2args-1summed'
+    split_conjunctions = True  # lower and upper bound are separate (nonlinear) obligations: each is several times cheaper than the conjunction
 
     def model(self, cx):
         a, b = Child(cx, 'arg1'), Child(cx, 'arg2')
